@@ -22,6 +22,12 @@ import (
 //	  <min bits> <max bits> <sum bits> | <one token per value>
 //	  token: n (NaN/Inf ignored) | z (zero) | sb:ib:sa:ia:r  = scale before, getBin at sb, scale after, getBin at
 //	  sa (the indices the implementation itself computes), r=1 iff the count moved.
+//	coll <gen> <d|c> <maxSize> <maxScale> <limit> <noMinMax 0|1> <noSum 0|1> | <op>... => <C <n> <point>*n>... | <token per m op>
+//	  one aggregator (delta or cumulative) with several attribute sets, collected several times into ONE re-used
+//	  metricdata.Aggregation (as pipeline.produce does). op: <attr>:f<bits> (measure) | c (collect) | n (a new
+//	  aggregator with the same configuration takes over the destination). point (in destination slot order):
+//	  <attr> <scale> <posOff> <pos,> <negOff> <neg,> <zero> <count> <min bits|-> <max bits|-> <sum bits>;
+//	  attr 0 = the overflow attribute set of the cardinality limiter.
 func TestVerifC07Agg(t *testing.T) {
 	out := vOpen(t)
 	defer out.Close()
@@ -37,9 +43,12 @@ func TestVerifC07Agg(t *testing.T) {
 		c07Exhaustive(out)
 	}
 	for i := 0; i < n; i++ {
-		if r.Intn(5) == 0 {
+		switch r.Intn(20) {
+		case 0, 1, 2:
 			c07GenHist(out, r)
-		} else {
+		case 3, 4, 5, 6:
+			c07GenColl(out, r)
+		default:
 			c07GenExpo(out, r)
 		}
 	}
@@ -64,6 +73,8 @@ func c07Replay(out *vOut, f []string) {
 			bits = append(bits, b)
 		}
 		c07RunExpo(out, f[1], int32(ms), int32(sc), bits)
+	case "coll":
+		c07ReplayColl(out, f)
 	case "hist":
 		shift, _ := strconv.Atoi(f[3])
 		var vals []int64
@@ -538,4 +549,230 @@ func c07Exhaustive(out *vOut) {
 			rec(nil, 0)
 		}
 	}
+}
+
+// ---------------------------------------------------------------- collection into a re-used destination
+
+type c07Op struct {
+	kind byte // 'm' measure, 'c' collect, 'n' new aggregator
+	attr int
+	bits uint64
+}
+
+func c07B(b bool) int {
+	if b {
+		return 1
+	}
+	return 0
+}
+
+func c07ReplayColl(out *vOut, f []string) {
+	ms, _ := strconv.Atoi(f[3])
+	sc, _ := strconv.Atoi(f[4])
+	lim, _ := strconv.Atoi(f[5])
+	var ops []c07Op
+	for _, t := range f[9:] {
+		switch t {
+		case "c":
+			ops = append(ops, c07Op{kind: 'c'})
+		case "n":
+			ops = append(ops, c07Op{kind: 'n'})
+		default:
+			i := strings.Index(t, ":f")
+			if i < 0 {
+				panic("bad coll op " + t)
+			}
+			a, err := strconv.Atoi(t[:i])
+			if err != nil {
+				panic(err)
+			}
+			b, err := strconv.ParseUint(t[i+2:], 16, 64)
+			if err != nil {
+				panic(err)
+			}
+			ops = append(ops, c07Op{kind: 'm', attr: a, bits: b})
+		}
+	}
+	c07RunColl(out, f[1], f[2] == "d", int32(ms), int32(sc), lim, f[6] == "1", f[7] == "1", ops)
+}
+
+func c07RunColl(out *vOut, gen string, delta bool, maxSize, maxScale int32, limit int, noMinMax, noSum bool, ops []c07Op) {
+	newAgg := func() *expoHistogram[float64] {
+		return newExponentialHistogram[float64](maxSize, maxScale, noMinMax, noSum, limit, dropReservoir[float64])
+	}
+	h := newAgg()
+	scratch := newExpoHistogramDataPoint[float64](attribute.NewSet(), int(maxSize), maxScale, false, false)
+	ctx := context.Background()
+	var dest metricdata.Aggregation // the ONE destination of every collection of this case
+	var in, obs strings.Builder
+	var toks []string
+	t := "c"
+	if delta {
+		t = "d"
+	}
+	fmt.Fprintf(&in, "coll %s %s %d %d %d %d %d |", gen, t, maxSize, maxScale, limit, c07B(noMinMax), c07B(noSum))
+	for _, op := range ops {
+		switch op.kind {
+		case 'n':
+			in.WriteString(" n")
+			h = newAgg()
+		case 'c':
+			in.WriteString(" c")
+			var n int
+			if delta {
+				n = h.delta(&dest)
+			} else {
+				n = h.cumulative(&dest)
+			}
+			dps := dest.(metricdata.ExponentialHistogram[float64]).DataPoints
+			if n != len(dps) {
+				fmt.Fprintf(&obs, " C!%d", n)
+			}
+			fmt.Fprintf(&obs, " C %d", len(dps))
+			for _, dp := range dps {
+				id := int64(-1)
+				if dp.Attributes.Equals(&overflowSet) {
+					id = 0
+				} else if v, ok := dp.Attributes.Value("k"); ok {
+					id = v.AsInt64()
+				}
+				mn, mx := "-", "-"
+				if v, ok := dp.Min.Value(); ok {
+					mn = fmt.Sprintf("f%016x", math.Float64bits(v))
+				}
+				if v, ok := dp.Max.Value(); ok {
+					mx = fmt.Sprintf("f%016x", math.Float64bits(v))
+				}
+				fmt.Fprintf(&obs, " %d %d %d %s %d %s %d %d %s %s f%016x", id, dp.Scale,
+					dp.PositiveBucket.Offset, c07Csv(dp.PositiveBucket.Counts),
+					dp.NegativeBucket.Offset, c07Csv(dp.NegativeBucket.Counts),
+					dp.ZeroCount, dp.Count, mn, mx, math.Float64bits(dp.Sum))
+			}
+		case 'm':
+			fmt.Fprintf(&in, " %d:f%016x", op.attr, op.bits)
+			set := attribute.NewSet(attribute.Int("k", op.attr))
+			v := math.Float64frombits(op.bits)
+			eff := h.limit.Attributes(set, h.values)
+			state := func() (int32, uint64) {
+				if p, ok := h.values[eff.Equivalent()]; ok {
+					return p.scale, p.count
+				}
+				return maxScale, 0
+			}
+			np := len(h.values)
+			sb, cb := state()
+			h.measure(ctx, v, set, nil)
+			sa, ca := state()
+			switch {
+			case math.IsNaN(v) || math.IsInf(v, 0):
+				if ca != cb || sa != sb || len(h.values) != np {
+					toks = append(toks, "x")
+				} else {
+					toks = append(toks, "n")
+				}
+			case v == 0:
+				toks = append(toks, "z")
+			default:
+				a := math.Abs(v)
+				scratch.scale = sb
+				ib := scratch.getBin(a)
+				scratch.scale = sa
+				ia := scratch.getBin(a)
+				rec := 0
+				if ca > cb {
+					rec = 1
+				}
+				toks = append(toks, fmt.Sprintf("%d:%d:%d:%d:%d", sb, ib, sa, ia, rec))
+			}
+		}
+	}
+	out.Line("%s =>%s | %s", in.String(), obs.String(), strings.Join(toks, " "))
+}
+
+// c07CollVal: a finite value with the given sign class (0 zero, 1 positive, 2 negative) on the exponent range w.
+func c07CollVal(r *vRand, cls int, e0, w int) uint64 {
+	if cls == 0 {
+		return uint64(r.Intn(2)) << 63
+	}
+	var b uint64
+	switch r.Intn(8) {
+	case 0:
+		b = vPick(r, c07Special[2:17]) &^ (1 << 63)
+	case 1:
+		b = c07Ulp(math.Ldexp(1, e0+r.Intn(w)), r.Intn(3)-1)
+	default:
+		b = math.Float64bits(math.Ldexp(1+float64(r.Intn(8))/8, e0+r.Intn(w)))
+	}
+	if cls == 2 {
+		b |= 1 << 63
+	}
+	return b
+}
+
+// c07GenColl: 2-6 collection cycles over 1-4 attribute sets; in every cycle each attribute set gets a sign
+// profile (nothing / zeros / positive / negative / both / everything), so that a point with an empty side lands
+// in a destination slot that held a non-empty side before (same attribute set in the previous cycle, another
+// attribute set because of the map's iteration order, a longer point list re-sliced, another aggregator).
+func c07GenColl(out *vOut, r *vRand) {
+	delta := r.Intn(3) != 0
+	maxSize := c07Size(r)
+	maxScale := int32(vPick(r, []int{20, 20, 10, 5, 3, 0, 0, -3, -10}))
+	if r.Intn(4) == 0 {
+		maxScale = c07Scale(r)
+	}
+	limit := 0
+	if r.Intn(4) == 0 {
+		limit = 1 + r.Intn(4)
+	}
+	noMinMax, noSum := r.Intn(4) == 0, r.Intn(4) == 0
+	nattr := 1 + r.Intn(4)
+	e0 := r.Intn(40) - 20
+	w := vPick(r, []int{1, 2, 4, 12, 60, 600})
+	gen := "cyc"
+	var ops []c07Op
+	cycles := 2 + r.Intn(5)
+	for c := 0; c < cycles; c++ {
+		var ms []c07Op
+		for a := 1; a <= nattr; a++ {
+			prof := r.Intn(7)
+			nv := 1 + r.Intn(4)
+			for k := 0; k < nv; k++ {
+				var cls int
+				switch prof {
+				case 0:
+					continue // nothing for this attribute set in this cycle
+				case 1:
+					cls = 0
+				case 2:
+					cls = 1
+				case 3:
+					cls = 2
+				case 4:
+					cls = 1 + r.Intn(2)
+				default:
+					cls = r.Intn(3)
+				}
+				b := c07CollVal(r, cls, e0, w)
+				if r.Intn(40) == 0 {
+					b = vPick(r, c07Special[17:21]) // Inf / NaN
+				}
+				ms = append(ms, c07Op{kind: 'm', attr: a, bits: b})
+			}
+		}
+		for i := range ms { // interleave the attribute sets
+			j := r.Intn(i + 1)
+			ms[i], ms[j] = ms[j], ms[i]
+		}
+		ops = append(ops, ms...)
+		ops = append(ops, c07Op{kind: 'c'})
+		switch r.Intn(8) {
+		case 0: // collect twice
+			ops = append(ops, c07Op{kind: 'c'})
+			gen = "cyc2"
+		case 1: // another aggregator takes over the destination
+			ops = append(ops, c07Op{kind: 'n'})
+			gen = "cycn"
+		}
+	}
+	c07RunColl(out, gen, delta, maxSize, maxScale, limit, noMinMax, noSum, ops)
 }
